@@ -34,6 +34,7 @@ type G struct {
 	ready    func() bool // for gBlocked: may it continue now?
 	until    time.Duration
 	envSleep bool // the current/last sleep was an environment (harness) sleep
+	sleeps   int  // number of non-environment sleeps started
 	nspawn   int
 	vc       VC
 	why      string
@@ -100,6 +101,7 @@ type Sim struct {
 	nmutex   int
 	ntimer   uint64
 	mapCalls uint64
+	atomVC   map[uintptr]*VC
 	timers   []*timerEv
 	verdict  Verdict
 	panicMsg string
@@ -204,7 +206,7 @@ func (s *Sim) start(g *G, fn func()) {
 func idleKind(kind string) bool {
 	switch kind {
 	case "sleep", "sel-default", "sel-block", "foreign-fired", "frecv-block", "timer-new", "timer-stop", "timer-recv",
-		"timer-recv-block", "timer-recv-done", "yield":
+		"timer-recv-block", "timer-recv-done", "yield", "atomic-load":
 		return true
 	}
 	return false
@@ -501,6 +503,9 @@ func (s *Sim) sleep(d time.Duration, env bool) {
 		d = 1 // a zero sleep still lets a minimal quantum of time pass, like a real busy poll
 	}
 	g.until = s.now + d
+	if !env {
+		g.sleeps++
+	}
 	g.envSleep = env
 	g.state = gSleeping
 	s.schedule()
@@ -515,6 +520,16 @@ func EnvSleep(d time.Duration) {
 	S.cur.nonIdle = true
 	S.sleep(d, true)
 	S.cur.nonIdle = true
+}
+
+// SleepCount reports how many non-environment sleeps the named goroutine has started so far.
+func SleepCount(name string) int {
+	for _, g := range S.gs {
+		if g.Name == name {
+			return g.sleeps
+		}
+	}
+	return 0
 }
 
 // Describe lists every unfinished goroutine with what it waits for (diagnostics).
